@@ -1057,7 +1057,11 @@ def entry_rules(ctx, prog):
         ctx.fn(b)
         cs = [(bb, t) for bb, t in b.calls() if t["callee"].get("method") == "observe_millis"]
         pc = path_count(b, [bb for bb, _ in cs])
-        ctx.ob("R7.batch-size", f"{owner}::observe_duration_millis", pc == (1, 1), b.loc(), f"observe_millis calls per path={pc}")
+        # ... and it is the BATCH's observe_millis on self (Event::observe_millis would record a batch of one)
+        own = all(owner in callee_key(t["callee"]) and Slice(b, through_calls=False).run(t["args"][0])["args"] == {1} and
+                  not any(f.endswith("::event") for f in Slice(b, through_calls=False).run(t["args"][0])["fields"]) for _bb, t in cs)
+        ctx.ob("R7.batch-size", f"{owner}::observe_duration_millis", pc == (1, 1) and own, b.loc(),
+               f"observe_millis calls per path={pc}; called on the batch itself (so the batch size is carried): {own}")
     # Event::* -> batch(1)
     for m in ("observe_once", "observe", "observe_millis", "observe_duration_millis"):
         cands = [b for b in prog.bodies if b.name == m and b.impl_adt and b.impl_adt.endswith("event::Event") and not b.impl_trait
